@@ -3,6 +3,7 @@ package main
 import (
 	"fmt"
 	"go/ast"
+	"go/types"
 	"sort"
 	"strings"
 )
@@ -483,7 +484,7 @@ func checkNominationValueProvenance(p *Prog, r *Report, f *Func, consumer string
 		}
 		good, n := true, 0
 		why := ""
-		for _, d := range p.DefsOf(f, p.ObjOf(id)) {
+		for _, d := range p.leafDefs(f, p.ObjOf(id), 0, map[types.Object]bool{}) {
 			if d.Zero || d.Rhs == nil || p.isNilExpr(d.Rhs) {
 				continue
 			}
@@ -501,4 +502,27 @@ func checkNominationValueProvenance(p *Prog, r *Report, f *Func, consumer string
 		r.Check(good && n > 0, f.Name+": nomination value handed to "+consumer[strings.LastIndex(consumer, ".")+1:]+" is a decoded value", p.Pos(c.Pos()),
 			"non-nil only as &nomination.Value under GetFromWithType == nil", "the nomination value is "+why+": a malformed or absent attribute is treated as a nomination value (bypassing the priority check / the last-nomination filter)")
 	}
+}
+
+// leafDefs: the definitions of a local followed through plain copies of other
+// locals (x := y; a, b = c, d), so that a value handed through temporaries is
+// traced to the expressions that produced it.
+func (p *Prog) leafDefs(f *Func, o types.Object, depth int, seen map[types.Object]bool) []VarDef {
+	if o == nil || seen[o] || depth > 5 {
+		return nil
+	}
+	seen[o] = true
+	var out []VarDef
+	for _, d := range p.DefsOf(f, o) {
+		if d.Rhs != nil && d.Index == 0 {
+			if id, ok := unparen(d.Rhs).(*ast.Ident); ok {
+				if v, isVar := p.ObjOf(id).(*types.Var); isVar && !v.IsField() && v.Pkg() != nil && v.Parent() != v.Pkg().Scope() {
+					out = append(out, p.leafDefs(f, v, depth+1, seen)...)
+					continue
+				}
+			}
+		}
+		out = append(out, d)
+	}
+	return out
 }
